@@ -319,6 +319,37 @@ Theorem data_world_new_erase w states :
   total_on lk w -> data_world_new w states = data_world_new (erase_world lk w) [].
 Proof. intros lk Ht. unfold data_world_new. by apply data_archetypes_erase. Qed.
 
+(** The macro chain delivers the truth values of the collected predicates, in their order. *)
+Lemma cfg_chain_gen (truth : nat -> bool) (preds : list nat) (acc : list bool) :
+  fold_left (fun bools p => chain_step (true, true) (true, false) bools (truth p)) preds acc = acc ++ (truth <$> preds).
+Proof.
+  revert acc. induction preds as [|p r IH]; intros acc; cbn [fold_left fmap list_fmap]; [by rewrite app_nil_r|].
+  rewrite IH. unfold chain_step. destruct (truth p); by rewrite <- app_assoc.
+Qed.
+
+Lemma cfg_chain_in_order (truth : nat -> bool) (preds : list nat) : cfg_chain (true, true) (true, false) truth preds = truth <$> preds.
+Proof. unfold cfg_chain. by rewrite cfg_chain_gen. Qed.
+
+Lemma NoDup_dedup_into seen l : NoDup seen -> NoDup (dedup_into seen l).
+Proof.
+  revert seen. induction l as [|q r IH]; intros seen Hnd; cbn [dedup_into]; [done|].
+  destruct (existsb (Nat.eqb q) seen) eqn:He; [by apply IH|]. apply IH. apply NoDup_app. split_and!; [done| |apply NoDup_singleton].
+  intros x Hx ->%elem_of_list_singleton. assert (existsb (Nat.eqb q) seen = true); [|congruence].
+  apply existsb_exists. exists q. split; [by apply elem_of_list_In|by apply Nat.eqb_eq].
+Qed.
+
+(** With the chain's list, the lookup table gives every collected predicate its truth value. *)
+Lemma cfg_lookup_chain (truth : nat -> bool) (preds : list nat) (p : nat) : p ∈ preds -> cfg_lookup preds (truth <$> preds) p = Some (truth p).
+Proof.
+  intros Hp. unfold cfg_lookup.
+  destruct (list_find (fun x => fst x = p) (zip preds (truth <$> preds))) as [[i [q b]]|] eqn:Hf.
+  - apply list_find_Some in Hf as (Hl & Hq & _). cbn in Hq. subst q. cbn.
+    apply lookup_zip_with_Some in Hl as (q' & b' & [= <- <-] & Hq' & Hb'). rewrite list_lookup_fmap, Hq' in Hb'. by injection Hb' as <-.
+  - exfalso. apply list_find_None in Hf. apply elem_of_list_lookup in Hp as (i & Hi).
+    rewrite Forall_forall in Hf. apply (Hf (p, truth p)); [|done].
+    apply elem_of_list_lookup. exists i. apply lookup_zip_with_Some. exists p, (truth p). split_and!; [done|done|]. by rewrite list_lookup_fmap, Hi.
+Qed.
+
 (** The lookup is total on the collected predicates when one boolean per predicate was delivered. *)
 Lemma dedup_into_elem seen l p : p ∈ dedup_into seen l <-> p ∈ seen \/ p ∈ l.
 Proof.
@@ -359,6 +390,20 @@ Proof.
     + apply elem_of_list_In. apply elem_of_app. right. apply elem_of_list_In, in_concat. exists (pc_cfgs c). split.
       * apply elem_of_list_In. apply elem_of_list_fmap. by exists c.
       * by apply elem_of_list_In.
+Qed.
+
+(** C16, end to end for declarations: for every assignment of truth values to cfg predicates, the list
+    the macro chain delivers makes the lookup give each predicate of the declaration its truth value,
+    and DataWorld::new on the decorated declaration equals DataWorld::new on its erasure. *)
+Theorem data_world_new_chain w (truth : nat -> bool) :
+  let preds := world_predicates w in
+  let states := cfg_chain (true, true) (true, false) truth preds in
+  (forall p, p ∈ preds -> cfg_lookup preds states p = Some (truth p)) /\
+  data_world_new w states = data_world_new (erase_world (cfg_lookup preds states) w) [].
+Proof.
+  intros preds states. unfold states. rewrite cfg_chain_in_order. split.
+  - intros p Hp. by apply cfg_lookup_chain.
+  - apply data_world_new_erase. apply world_lookup_total. by rewrite fmap_length.
 Qed.
 
 (* ---------------------------------------------------------------- queries: disabled parameters *)
